@@ -99,6 +99,9 @@ class QCow2(AlignedStream):
         else:
             self.compression_type = c_qcow2.QCOW2_COMPRESSION_TYPE_ZLIB
 
+        if self.compression_type not in (c_qcow2.QCOW2_COMPRESSION_TYPE_ZLIB, c_qcow2.QCOW2_COMPRESSION_TYPE_ZSTD):
+            raise InvalidHeaderError(f"Unsupported qcow2 compression type: {self.compression_type}")
+
         if self.compression_type == c_qcow2.QCOW2_COMPRESSION_TYPE_ZSTD and not HAS_ZSTD:
             raise RuntimeError("zstandard module not available")
 
